@@ -2,16 +2,24 @@ import Tally.Model.Registry
 /-!
 # Helper lemmas for the registry interleaving model (`Tally.Registry`): the inductive invariant
 
-One invariant `Inv`, preserved by every atomic step of every thread (`inv_step`), hence true in
-every reachable state (`inv_run`).  Every step in fact establishes `Pres s s'`: the invariant afterwards,
+One invariant `Inv san`, preserved by every atomic step of every thread (`inv_step`), hence true in
+every reachable state (`inv_run`).  Every step in fact establishes `Pres san s s'`: the invariant afterwards,
 no token lost whatever the selector (`TokMono`), and scopes evolve monotonically (`ScopeLe`: they persist,
 keep their identity, stay closed).  The preservation proof is split per *case family* of `step`
 (pc-only moves `Inv.move`/`Inv.hand`, read-lock `Inv.acquire`/`Inv.release`, `Inv.swap`, `Inv.deliver`,
-removal by identity `Inv.delete`, `Inv.clear`, creation `Inv.fresh`, the D4c branch `Inv.d4c`, and
-`inv_record`, `inv_close`), all through two master lemmas `Inv.thread` / `Inv.noPc`; then one lemma per
-pc (`inv_passIter` … `inv_obtWantLock`) and `pres_step`.
+removal by identity `Inv.delete`, `Inv.clear`, return with alias `Inv.handAlias`, creation `Inv.fresh`, the D4c
+branch `Inv.d4c`, and `inv_record`, `inv_close`), all through two master lemmas `Inv.thread` / `Inv.noPc`; then
+one lemma per pc (`inv_passIter` … `inv_obtWantLock`) and `pres_step`.
+
+Sanitizer aliasing: the model is parameterised by `san : Nat → Nat`; `Inv san` carries its idempotence
+(`sanIdem`, so that it need not be threaded through every lemma).  The static part `SInv san` says: a live scope
+is registered under its identity (`liveReg`), every entry `k ↦ sid` points to a scope of identity `san k`
+(`regIdent`: the identity key itself or a raw alias), and no key is registered twice (`regNodup`).
+`DoneOk` (a thread at `obtDone r sid` holds a scope of identity `san r`) is a second small invariant on top.
 -/
 namespace Tally.Registry
+
+variable {san : Nat → Nat}
 
 /-! ## projections of the state-update helpers -/
 
@@ -66,6 +74,39 @@ theorem clearScope_scopes {s : State} {sid : Nat} {x : ScopeS} (hx : scopeOf s s
     (clearScope s sid).scopes = s.scopes.set sid { x with cleared := true, cell := [] } := by
   simp [clearScope, hx]
 
+theorem addAlias_none {s : State} {r sid : Nat} (h : lookup s r = none) :
+    addAlias s r sid = { s with reg := (r, sid) :: s.reg } := by
+  simp [addAlias, h]
+theorem addAlias_some {s : State} {r sid v : Nat} (h : lookup s r = some v) : addAlias s r sid = s := by
+  simp [addAlias, h]
+@[simp] theorem addAlias_scopes (s : State) (r sid : Nat) : (addAlias s r sid).scopes = s.scopes := by
+  unfold addAlias; split <;> rfl
+@[simp] theorem addAlias_pcs (s : State) (r sid : Nat) : (addAlias s r sid).pcs = s.pcs := by
+  unfold addAlias; split <;> rfl
+@[simp] theorem addAlias_readers (s : State) (r sid : Nat) : (addAlias s r sid).readers = s.readers := by
+  unfold addAlias; split <;> rfl
+@[simp] theorem addAlias_delivered (s : State) (r sid : Nat) : (addAlias s r sid).delivered = s.delivered := by
+  unfold addAlias; split <;> rfl
+@[simp] theorem addAlias_dropped (s : State) (r sid : Nat) : (addAlias s r sid).dropped = s.dropped := by
+  unfold addAlias; split <;> rfl
+@[simp] theorem addAlias_nextToken (s : State) (r sid : Nat) : (addAlias s r sid).nextToken = s.nextToken := by
+  unfold addAlias; split <;> rfl
+@[simp] theorem addAlias_handedOut (s : State) (r sid : Nat) : (addAlias s r sid).handedOut = s.handedOut := by
+  unfold addAlias; split <;> rfl
+@[simp] theorem scopeOf_addAlias (s : State) (r sid sid' : Nat) : scopeOf (addAlias s r sid) sid' = scopeOf s sid' := by
+  simp [scopeOf]
+/-- adding an alias never changes what a registered key points to -/
+theorem lookup_addAlias {s : State} {r sid k v : Nat} (h : lookup s k = some v) :
+    lookup (addAlias s r sid) k = some v := by
+  cases hl : lookup s r with
+  | some w => rw [addAlias_some hl]; exact h
+  | none =>
+    rw [addAlias_none hl]
+    have hne : k ≠ r := by intro e; rw [e, hl] at h; cases h
+    have : (k == r) = false := by simp [hne]
+    show List.lookup k ((r, sid) :: s.reg) = some v
+    simp only [List.lookup, this]; exact h
+
 theorem pcOf_setPc (s : State) (t t' : Nat) (p : Pc) :
     pcOf (setPc s t p) t' = if t' = t then p else pcOf s t' := by
   unfold pcOf
@@ -100,7 +141,7 @@ theorem pcOf_setPc_ne (s : State) (t t' : Nat) (p : Pc) (h : t' ≠ t) :
 /-- does a thread at this pc hold the shard's read lock? -/
 def holdsR : Pc → Bool
   | .passIter _ | .passSwap .. | .passDeliver .. | .passAfter .. | .passClear .. => true
-  | .obtSwap .. | .obtDeliver .. | .obtAfter .. | .obtClear .. | .obtRelease .. => true
+  | .obtSwap .. | .obtDeliver .. | .obtAfter .. | .obtAfter2 .. | .obtClear .. | .obtRelease .. => true
   | _ => false
 
 /-- the scope a thread at this pc refers to -/
@@ -108,7 +149,8 @@ def pcScope : Pc → Option Nat
   | .passSwap _ _ sid _ | .passDeliver _ _ sid _ _ | .passAfter _ _ sid _ => some sid
   | .passUnlocked _ _ sid | .passRelock _ _ sid | .passClear _ _ sid => some sid
   | .obtSwap _ sid | .obtDeliver _ sid _ | .obtAfter _ sid | .obtUnlocked _ sid => some sid
-  | .obtRelock _ sid | .obtClear _ sid | .obtDone _ sid => some sid
+  | .obtRelock _ sid | .obtAfter2 _ sid | .obtUnlocked2 _ sid | .obtRelock2 _ sid => some sid
+  | .obtClear _ sid | .obtDone _ sid => some sid
   | _ => none
 
 /-- the thread has read the scope's closed flag as `true` (and is going to drop the scope) -/
@@ -116,12 +158,14 @@ def pcClosed : Pc → Bool
   | .passSwap _ _ _ c | .passDeliver _ _ _ c _ | .passAfter _ _ _ c => c
   | .passUnlocked .. | .passRelock .. | .passClear .. => true
   | .obtSwap .. | .obtDeliver .. | .obtAfter .. | .obtUnlocked .. | .obtRelock .. | .obtClear .. => true
+  | .obtAfter2 .. | .obtUnlocked2 .. | .obtRelock2 .. => true
   | _ => false
 
 /-- the thread has already swapped the scope's cell in this visit -/
 def pcSwapped : Pc → Bool
   | .passDeliver .. | .passAfter .. | .passUnlocked .. | .passRelock .. | .passClear .. => true
   | .obtDeliver .. | .obtAfter .. | .obtUnlocked .. | .obtRelock .. | .obtClear .. => true
+  | .obtAfter2 .. | .obtUnlocked2 .. | .obtRelock2 .. => true
   | _ => false
 
 /-- the thread is inside a visit of `sid` (the body of `visiting`) -/
@@ -302,22 +346,24 @@ theorem nodup_setPc_keys (pcs : List (Nat × Pc)) (t : Nat) (p : Pc) (h : (pcs.m
 
 /-- the part of the invariant that only talks about scopes, the map, the ghost list of results and
 the dropped tokens -/
-structure SInv (scopes : List ScopeS) (reg : List (Nat × Nat)) (ho : List (Nat × Nat))
+structure SInv (san : Nat → Nat) (scopes : List ScopeS) (reg : List (Nat × Nat)) (ho : List (Nat × Nat))
     (dropped : List Token) : Prop where
   cellScope : ∀ (sid : Nat) (x : ScopeS), scopes[sid]? = some x → ∀ tok ∈ x.cell, tok.scope = sid
   clearedOk : ∀ (sid : Nat) (x : ScopeS), scopes[sid]? = some x → x.cleared = true → x.closed = true ∧ x.cell = []
   liveReg : ∀ (sid : Nat) (x : ScopeS), scopes[sid]? = some x → x.closed = false → reg.lookup x.ident = some sid
-  regIdent : ∀ k v, (k, v) ∈ reg → ∃ x : ScopeS, scopes[v]? = some x ∧ x.ident = k
+  regIdent : ∀ k v, (k, v) ∈ reg → ∃ x : ScopeS, scopes[v]? = some x ∧ x.ident = san k
+  regNodup : (reg.map (·.1)).Nodup
   handed : ∀ t sid, (t, sid) ∈ ho → sid < scopes.length
   droppedNoPre : NoPre dropped
 
 def allTokens (s : State) : List Token := s.delivered ++ allCells s ++ allPending s ++ s.dropped
 
-structure Inv (s : State) : Prop where
+structure Inv (san : Nat → Nat) (s : State) : Prop where
+  sanIdem : ∀ k, san (san k) = san k
   nodup : (s.pcs.map (·.1)).Nodup
   readersOk : ∀ t, t ∈ s.readers ↔ holdsR (pcOf s t) = true
   pcInv : ∀ t, PcInv s (pcOf s t)
-  static : SInv s.scopes s.reg s.handedOut s.dropped
+  static : SInv san s.scopes s.reg s.handedOut s.dropped
   tokens : ∀ n, idc (byId n) (allTokens s) = if n < s.nextToken then 1 else 0
 
 
@@ -388,10 +434,10 @@ theorem lookup_none_iff {reg : List (Nat × Nat)} {k : Nat} :
 
 /-! ## preservation of the static part -/
 
-theorem SInv.set {scopes reg ho dropped} (h : SInv scopes reg ho dropped) {sid : Nat} {x y : ScopeS}
+theorem SInv.set {scopes reg ho dropped} (h : SInv san scopes reg ho dropped) {sid : Nat} {x y : ScopeS}
     (hx : scopes[sid]? = some x) (hid : y.ident = x.ident) (hcl : x.closed = true → y.closed = true)
     (hcell : ∀ tok ∈ y.cell, tok.scope = sid) (hclr : y.cleared = true → y.closed = true ∧ y.cell = []) :
-    SInv (scopes.set sid y) reg ho dropped := by
+    SInv san (scopes.set sid y) reg ho dropped := by
   have hlt : sid < scopes.length := (List.getElem?_eq_some_iff.mp hx).1
   have key : ∀ (sid' : Nat) (x' : ScopeS), (scopes.set sid y)[sid']? = some x' →
       (sid' = sid ∧ x' = y) ∨ (sid' ≠ sid ∧ scopes[sid']? = some x') := by
@@ -400,7 +446,7 @@ theorem SInv.set {scopes reg ho dropped} (h : SInv scopes reg ho dropped) {sid :
     by_cases he : sid = sid'
     · subst he; simp only [if_true, hlt] at h'; left; exact ⟨rfl, by cases h'; rfl⟩
     · simp only [he, if_false] at h'; right; exact ⟨fun e => he e.symm, h'⟩
-  refine ⟨?_, ?_, ?_, ?_, ?_, h.droppedNoPre⟩
+  refine ⟨?_, ?_, ?_, ?_, h.regNodup, ?_, h.droppedNoPre⟩
   · intro sid' x' h'
     rcases key sid' x' h' with ⟨rfl, rfl⟩ | ⟨_, h''⟩
     · exact hcell
@@ -428,23 +474,23 @@ theorem SInv.set {scopes reg ho dropped} (h : SInv scopes reg ho dropped) {sid :
   · intro t sid' hm
     simpa using h.handed t sid' hm
 
-theorem SInv.drop {scopes reg ho dropped} (h : SInv scopes reg ho dropped) {d : List Token} (hd : NoPre d) :
-    SInv scopes reg ho d :=
-  ⟨h.cellScope, h.clearedOk, h.liveReg, h.regIdent, h.handed, hd⟩
+theorem SInv.drop {scopes reg ho dropped} (h : SInv san scopes reg ho dropped) {d : List Token} (hd : NoPre d) :
+    SInv san scopes reg ho d :=
+  ⟨h.cellScope, h.clearedOk, h.liveReg, h.regIdent, h.regNodup, h.handed, hd⟩
 
-theorem SInv.hand {scopes reg ho dropped} (h : SInv scopes reg ho dropped) {t sid : Nat}
-    (hs : sid < scopes.length) : SInv scopes reg ((t, sid) :: ho) dropped := by
-  refine ⟨h.cellScope, h.clearedOk, h.liveReg, h.regIdent, ?_, h.droppedNoPre⟩
+theorem SInv.hand {scopes reg ho dropped} (h : SInv san scopes reg ho dropped) {t sid : Nat}
+    (hs : sid < scopes.length) : SInv san scopes reg ((t, sid) :: ho) dropped := by
+  refine ⟨h.cellScope, h.clearedOk, h.liveReg, h.regIdent, h.regNodup, ?_, h.droppedNoPre⟩
   intro t' sid' hm
   rcases List.mem_cons.mp hm with he | hm
   · cases he; exact hs
   · exact h.handed t' sid' hm
 
 /-- removal by identity of a closed scope -/
-theorem SInv.delete {scopes reg ho dropped} (h : SInv scopes reg ho dropped) {k sid : Nat} {x : ScopeS}
+theorem SInv.delete {scopes reg ho dropped} (h : SInv san scopes reg ho dropped) {k sid : Nat} {x : ScopeS}
     (hx : scopes[sid]? = some x) (hc : x.closed = true) :
-    SInv scopes (reg.filter fun (k', v) => !(k' == k && v == sid)) ho dropped := by
-  refine ⟨h.cellScope, h.clearedOk, ?_, ?_, h.handed, h.droppedNoPre⟩
+    SInv san scopes (reg.filter fun (k', v) => !(k' == k && v == sid)) ho dropped := by
+  refine ⟨h.cellScope, h.clearedOk, ?_, ?_, (List.filter_sublist.map _).nodup h.regNodup, h.handed, h.droppedNoPre⟩
   · intro sid' x' hx' hc'
     apply lookup_filter_keep _ (h.liveReg sid' x' hx' hc')
     have : sid' ≠ sid := by
@@ -453,12 +499,12 @@ theorem SInv.delete {scopes reg ho dropped} (h : SInv scopes reg ho dropped) {k 
   · intro k' v hm
     exact h.regIdent k' v (List.mem_filter.mp hm).1
 
-/-- creation of a fresh scope for identity `i`, replacing whatever the map held for `i`; allowed when
+/-- creation of a fresh scope for the (sanitized) identity `i`, replacing whatever the map held for `i`; allowed when
 no live scope has identity `i` -/
-theorem SInv.fresh {scopes reg ho dropped} (h : SInv scopes reg ho dropped) (t i : Nat)
+theorem SInv.create {scopes reg ho dropped} (h : SInv san scopes reg ho dropped) (i : Nat) (hi : san i = i)
     (hno : ∀ (sid : Nat) (x : ScopeS), scopes[sid]? = some x → x.ident = i → x.closed = true) :
-    SInv (scopes ++ [{ ident := i, closed := false, cleared := false, cell := [] }])
-      ((i, scopes.length) :: reg.filter (·.1 != i)) ((t, scopes.length) :: ho) dropped := by
+    SInv san (scopes ++ [{ ident := i, closed := false, cleared := false, cell := [] }])
+      ((i, scopes.length) :: reg.filter (·.1 != i)) ho dropped := by
   have key : ∀ (sid' : Nat) (x' : ScopeS),
       (scopes ++ [({ ident := i, closed := false, cleared := false, cell := [] } : ScopeS)])[sid']? = some x' →
       (sid' = scopes.length ∧ x' = { ident := i, closed := false, cleared := false, cell := [] })
@@ -475,7 +521,7 @@ theorem SInv.fresh {scopes reg ho dropped} (h : SInv scopes reg ho dropped) (t i
       rw [hz] at h'
       simp only [List.getElem?_cons_zero, Option.some.injEq] at h'
       exact ⟨by omega, h'.symm⟩
-  refine ⟨?_, ?_, ?_, ?_, ?_, h.droppedNoPre⟩
+  refine ⟨?_, ?_, ?_, ?_, ?_, ?_, h.droppedNoPre⟩
   · intro sid' x' h'
     rcases key sid' x' h' with ⟨rfl, rfl⟩ | ⟨_, h''⟩
     · intro tok ht; cases ht
@@ -496,19 +542,45 @@ theorem SInv.fresh {scopes reg ho dropped} (h : SInv scopes reg ho dropped) (t i
   · intro k v hm
     rcases List.mem_cons.mp hm with he | hm
     · cases he
-      exact ⟨{ ident := i, closed := false, cleared := false, cell := [] }, by simp, rfl⟩
+      exact ⟨{ ident := i, closed := false, cleared := false, cell := [] }, by simp, hi.symm⟩
     · obtain ⟨x', hx', hk⟩ := h.regIdent k v (List.mem_filter.mp hm).1
       have hl : v < scopes.length := (List.getElem?_eq_some_iff.mp hx').1
       exact ⟨x', by rw [List.getElem?_append_left hl]; exact hx', hk⟩
+  · simp only [List.map_cons, List.nodup_cons]
+    constructor
+    · intro hm
+      obtain ⟨q, hq, he⟩ := List.mem_map.mp hm
+      have := (List.mem_filter.mp hq).2
+      simp [he] at this
+    · exact (List.filter_sublist.map _).nodup h.regNodup
   · intro t' sid' hm
     simp only [List.length_append, List.length_cons, List.length_nil]
+    have := h.handed t' sid' hm; omega
+
+/-- registration of the so far unregistered raw key `r` as an alias of a scope of identity `san r` -/
+theorem SInv.alias {scopes reg ho dropped} (h : SInv san scopes reg ho dropped) {r sid : Nat} {x : ScopeS}
+    (hr : reg.lookup r = none) (hx : scopes[sid]? = some x) (hi : x.ident = san r) :
+    SInv san scopes ((r, sid) :: reg) ho dropped := by
+  refine ⟨h.cellScope, h.clearedOk, ?_, ?_, ?_, h.handed, h.droppedNoPre⟩
+  · intro sid' x' hx' hc
+    have hl := h.liveReg sid' x' hx' hc
+    have hne : x'.ident ≠ r := by intro e; rw [e, hr] at hl; cases hl
+    have : (x'.ident == r) = false := by simp [hne]
+    simp only [List.lookup, this]; exact hl
+  · intro k v hm
     rcases List.mem_cons.mp hm with he | hm
-    · cases he; omega
-    · have := h.handed t' sid' hm; omega
+    · cases he; exact ⟨x, hx, hi⟩
+    · exact h.regIdent k v hm
+  · simp only [List.map_cons, List.nodup_cons]
+    refine ⟨?_, h.regNodup⟩
+    intro hm
+    obtain ⟨⟨a, b⟩, hq, he⟩ := List.mem_map.mp hm
+    simp only at he; subst he
+    exact lookup_none_iff.mp hr b hq
 
 /-- in a state satisfying the static invariant, if the map has nothing for `i`, or what it has is a closed
 scope, then no live scope has identity `i` -/
-theorem SInv.no_live {scopes reg ho dropped} (h : SInv scopes reg ho dropped) (i : Nat)
+theorem SInv.no_live {scopes reg ho dropped} (h : SInv san scopes reg ho dropped) (i : Nat)
     (hl : reg.lookup i = none ∨ ∃ (sid : Nat) (x : ScopeS), reg.lookup i = some sid ∧ scopes[sid]? = some x ∧ x.closed = true) :
     ∀ (sid : Nat) (x : ScopeS), scopes[sid]? = some x → x.ident = i → x.closed = true := by
   intro sid x hx hi
@@ -540,19 +612,19 @@ theorem TokMono.trans {a b c : State} (h1 : TokMono a b) (h2 : TokMono b c) : To
   fun q => Nat.le_trans (h1 q) (h2 q)
 
 /-- what every step establishes: the invariant afterwards, and no token lost -/
-def Pres (s s' : State) : Prop := Inv s' ∧ TokMono s s' ∧ ScopeLe s s'
+def Pres (san : Nat → Nat) (s s' : State) : Prop := Inv san s' ∧ TokMono s s' ∧ ScopeLe s s'
 
-theorem Inv.thread {s s0 : State} (h : Inv s) (t : Nat) (p' : Pc)
+theorem Inv.thread {s s0 : State} (h : Inv san s) (t : Nat) (p' : Pc)
     (hpcs : s0.pcs = s.pcs)
     (hle : ScopeLe s s0)
     (hp' : PcInv s0 p')
     (hrd : ∀ t', t' ∈ s0.readers ↔ if t' = t then holdsR p' = true else t' ∈ s.readers)
-    (hst : SInv s0.scopes s0.reg s0.handedOut s0.dropped)
+    (hst : SInv san s0.scopes s0.reg s0.handedOut s0.dropped)
     (hnt : s0.nextToken = s.nextToken)
     (htok : ∀ n, idc n s0.delivered + idc n (cells s0.scopes) + idc n s0.dropped + idc n (pendingOf p')
         = idc n s.delivered + idc n (cells s.scopes) + idc n s.dropped + idc n (pendingOf (pcOf s t))) :
-    Pres s (setPc s0 t p') := by
-  refine ⟨⟨?_, ?_, ?_, hst, ?_⟩, ?_, hle⟩
+    Pres san s (setPc s0 t p') := by
+  refine ⟨⟨h.sanIdem, ?_, ?_, ?_, hst, ?_⟩, ?_, hle⟩
   rotate_right
   · intro q
     rw [allTokens_idc, allTokens_idc]
@@ -587,17 +659,17 @@ theorem Inv.thread {s s0 : State} (h : Inv s) (t : Nat) (p' : Pc)
     omega
 
 /-- events that do not touch any thread's pc (record, close); `nt` = the token minted, if any -/
-theorem Inv.noPc {s s' : State} (h : Inv s)
+theorem Inv.noPc {s s' : State} (h : Inv san s)
     (hpcs : s'.pcs = s.pcs) (hrd : s'.readers = s.readers)
     (hle : ScopeLe s s')
-    (hst : SInv s'.scopes s'.reg s'.handedOut s'.dropped)
+    (hst : SInv san s'.scopes s'.reg s'.handedOut s'.dropped)
     (nt : List Token)
     (htok : ∀ q, idc q s'.delivered + idc q (cells s'.scopes) + idc q s'.dropped
         = idc q s.delivered + idc q (cells s.scopes) + idc q s.dropped + idc q nt)
     (hnt : (nt = [] ∧ s'.nextToken = s.nextToken)
       ∨ (∃ tok, nt = [tok] ∧ tok.id = s.nextToken ∧ s'.nextToken = s.nextToken + 1)) :
-    Pres s s' := by
-  refine ⟨⟨by rw [hpcs]; exact h.nodup, ?_, ?_, hst, ?_⟩, ?_, hle⟩
+    Pres san s s' := by
+  refine ⟨⟨h.sanIdem, by rw [hpcs]; exact h.nodup, ?_, ?_, hst, ?_⟩, ?_, hle⟩
   · intro t; rw [hrd, pcOf_congr hpcs]; exact h.readersOk t
   · intro t; rw [pcOf_congr hpcs]; exact PcInv.mono hle (h.pcInv t)
   · intro n
@@ -634,9 +706,9 @@ theorem PcInv.of_none {s : State} {p : Pc} (h : pcScope p = none) : PcInv s p :=
   intro sid hs; rw [h] at hs; cases hs
 
 /-- family: the thread only moves its pc (no lock, no data) -/
-theorem Inv.move {s : State} (h : Inv s) (t : Nat) (p' : Pc)
+theorem Inv.move {s : State} (h : Inv san s) (t : Nat) (p' : Pc)
     (hh : holdsR p' = holdsR (pcOf s t)) (hp : pendingOf (pcOf s t) = []) (hp' : pendingOf p' = [])
-    (hi : PcInv s p') : Pres s (setPc s t p') := by
+    (hi : PcInv s p') : Pres san s (setPc s t p') := by
   refine h.thread t p' rfl (ScopeLe.refl' _ _ rfl) hi ?_ h.static rfl ?_
   · intro t'
     by_cases he : t' = t
@@ -645,9 +717,9 @@ theorem Inv.move {s : State} (h : Inv s) (t : Nat) (p' : Pc)
   · intro n; rw [hp, hp']
 
 /-- family: `obtain` returns a scope (pc move + ghost result list) -/
-theorem Inv.hand {s : State} (h : Inv s) (t i sid : Nat) {x : ScopeS} (hx : scopeOf s sid = some x)
+theorem Inv.hand {s : State} (h : Inv san s) (t i sid : Nat) {x : ScopeS} (hx : scopeOf s sid = some x)
     (hh : holdsR (pcOf s t) = false) (hp : pendingOf (pcOf s t) = []) :
-    Pres s { setPc s t (.obtDone i sid) with handedOut := (t, sid) :: s.handedOut } := by
+    Pres san s (handOut s t i sid) := by
   refine Inv.thread (s0 := { s with handedOut := (t, sid) :: s.handedOut }) h t (.obtDone i sid) rfl
     (ScopeLe.refl' _ _ rfl) ?_ ?_ (h.static.hand (scopeOf_lt hx)) rfl ?_
   · intro sid' hs
@@ -661,9 +733,9 @@ theorem Inv.hand {s : State} (h : Inv s) (t i sid : Nat) {x : ScopeS} (hx : scop
   · intro n; rw [hp]; rfl
 
 /-- family: the thread takes the read lock -/
-theorem Inv.acquire {s : State} (h : Inv s) (t : Nat) (p' : Pc)
+theorem Inv.acquire {s : State} (h : Inv san s) (t : Nat) (p' : Pc)
     (hh' : holdsR p' = true) (hp : pendingOf (pcOf s t) = []) (hp' : pendingOf p' = [])
-    (hi : PcInv s p') : Pres s (setPc (addReader s t) t p') := by
+    (hi : PcInv s p') : Pres san s (setPc (addReader s t) t p') := by
   refine h.thread t p' rfl (ScopeLe.refl' _ _ rfl) hi ?_ h.static rfl ?_
   · intro t'
     by_cases he : t' = t
@@ -672,9 +744,9 @@ theorem Inv.acquire {s : State} (h : Inv s) (t : Nat) (p' : Pc)
   · intro n; rw [hp, hp']; rfl
 
 /-- family: the thread releases the read lock -/
-theorem Inv.release {s : State} (h : Inv s) (t : Nat) (p' : Pc)
+theorem Inv.release {s : State} (h : Inv san s) (t : Nat) (p' : Pc)
     (hh' : holdsR p' = false) (hp : pendingOf (pcOf s t) = []) (hp' : pendingOf p' = [])
-    (hi : PcInv s p') : Pres s (setPc (delReader s t) t p') := by
+    (hi : PcInv s p') : Pres san s (setPc (delReader s t) t p') := by
   refine h.thread t p' rfl (ScopeLe.refl' _ _ rfl) hi ?_ h.static rfl ?_
   · intro t'
     by_cases he : t' = t
@@ -683,11 +755,11 @@ theorem Inv.release {s : State} (h : Inv s) (t : Nat) (p' : Pc)
   · intro n; rw [hp, hp']; rfl
 
 /-- family: the visit swaps the scope's cell out -/
-theorem Inv.swap {s : State} (h : Inv s) (t sid : Nat) (p' : Pc) {x : ScopeS} (hx : scopeOf s sid = some x)
+theorem Inv.swap {s : State} (h : Inv san s) (t sid : Nat) (p' : Pc) {x : ScopeS} (hx : scopeOf s sid = some x)
     (hh : holdsR p' = holdsR (pcOf s t)) (hp : pendingOf (pcOf s t) = []) (hp' : pendingOf p' = x.cell)
     (hsc : pcScope (pcOf s t) = some sid) (hsc' : pcScope p' = some sid)
     (hcl : pcClosed p' = pcClosed (pcOf s t)) :
-    Pres s (setPc (setScope s sid { x with cell := [] }) t p') := by
+    Pres san s (setPc (setScope s sid { x with cell := [] }) t p') := by
   have hx' : s.scopes[sid]? = some x := hx
   refine h.thread t p' rfl (scopeLe_setScope hx rfl fun hc => ⟨hc, fun _ => NoPre_nil⟩) ?_ ?_
     (h.static.set hx' rfl id (by intro _ hm; cases hm) (fun hc => ?_)) rfl ?_
@@ -709,9 +781,9 @@ theorem Inv.swap {s : State} (h : Inv s) (t sid : Nat) (p' : Pc) {x : ScopeS} (h
     omega
 
 /-- family: the visit hands its pending delta to the reporter -/
-theorem Inv.deliver {s : State} (h : Inv s) (t : Nat) (p' : Pc) (pd : List Token)
+theorem Inv.deliver {s : State} (h : Inv san s) (t : Nat) (p' : Pc) (pd : List Token)
     (hh : holdsR p' = holdsR (pcOf s t)) (hp : pendingOf (pcOf s t) = pd) (hp' : pendingOf p' = [])
-    (hi : PcInv s p') : Pres s (setPc { s with delivered := pd ++ s.delivered } t p') := by
+    (hi : PcInv s p') : Pres san s (setPc { s with delivered := pd ++ s.delivered } t p') := by
   refine Inv.thread (s0 := { s with delivered := pd ++ s.delivered }) h t p' rfl
     (ScopeLe.refl' _ _ rfl) hi ?_ h.static rfl ?_
   · intro t'
@@ -721,11 +793,11 @@ theorem Inv.deliver {s : State} (h : Inv s) (t : Nat) (p' : Pc) (pd : List Token
   · intro n; rw [hp, hp']; simp only [idc_append, idc_nil]; omega
 
 /-- family: removal by identity, under the write lock, of a scope the thread knows to be closed -/
-theorem Inv.delete {s : State} (h : Inv s) (t k sid : Nat) (p' : Pc)
+theorem Inv.delete {s : State} (h : Inv san s) (t k sid : Nat) (p' : Pc)
     (hh : holdsR (pcOf s t) = false) (hh' : holdsR p' = false)
     (hp : pendingOf (pcOf s t) = []) (hp' : pendingOf p' = [])
     (hsc : pcScope (pcOf s t) = some sid) (hcl : pcClosed (pcOf s t) = true)
-    (hi : PcInv s p') : Pres s (setPc (deleteIfSame s k sid) t p') := by
+    (hi : PcInv s p') : Pres san s (setPc (deleteIfSame s k sid) t p') := by
   obtain ⟨x, hx, hc⟩ := h.pcInv t sid hsc
   refine h.thread t p' rfl (ScopeLe.refl' _ _ rfl) hi ?_ (h.static.delete (k := k) hx (hc hcl).1) rfl ?_
   · intro t'
@@ -739,11 +811,11 @@ theorem clearScope_eq {s : State} {sid : Nat} {x : ScopeS} (hx : scopeOf s sid =
   simp [clearScope, hx]
 
 /-- family: the thread clears the metrics of a scope it knows to be closed and has reported since -/
-theorem Inv.clear {s : State} (h : Inv s) (t sid : Nat) (p' : Pc)
+theorem Inv.clear {s : State} (h : Inv san s) (t sid : Nat) (p' : Pc)
     (hh : holdsR p' = holdsR (pcOf s t))
     (hp : pendingOf (pcOf s t) = []) (hp' : pendingOf p' = [])
     (hsc : pcScope (pcOf s t) = some sid) (hcl : pcClosed (pcOf s t) = true) (hsw : pcSwapped (pcOf s t) = true)
-    (hsc' : pcScope p' = none) : Pres s (setPc (clearScope s sid) t p') := by
+    (hsc' : pcScope p' = none) : Pres san s (setPc (clearScope s sid) t p') := by
   obtain ⟨x, hx, hc⟩ := h.pcInv t sid hsc
   obtain ⟨hxc, hnp⟩ := hc hcl
   have hnp := hnp hsw
@@ -770,89 +842,138 @@ theorem Inv.clear {s : State} (h : Inv s) (t sid : Nat) (p' : Pc)
       + idc n (x.cell ++ s.dropped) + 0 = _
     rw [idc_append]; omega
 
-/-- the write-locked creation of a fresh scope for identity `i` by thread `t` -/
-def freshS (s : State) (t i : Nat) : State :=
-  { setPc { s with scopes := s.scopes ++ [{ ident := i, closed := false, cleared := false, cell := [] }],
-                   reg := (i, s.scopes.length) :: s.reg.filter (·.1 != i) } t (.obtDone i s.scopes.length)
-    with handedOut := (t, s.scopes.length) :: s.handedOut }
+theorem SInv.addAlias {s : State} {ho : List (Nat × Nat)} {d : List Token} (h : SInv san s.scopes s.reg ho d)
+    {r sid : Nat} {x : ScopeS} (hx : scopeOf s sid = some x) (hi : x.ident = san r) :
+    SInv san (addAlias s r sid).scopes (addAlias s r sid).reg ho d := by
+  cases hl : lookup s r with
+  | some w => rw [addAlias_some hl]; exact h
+  | none => rw [addAlias_none hl]; exact h.alias hl hx hi
 
-/-- family: creation (identity absent, or after the D4c report-and-drop prefix) -/
-theorem Inv.fresh {s : State} (h : Inv s) (t i : Nat)
+/-- family: `obtain` returns a scope found under the sanitized key, registering the raw key as an alias of it -/
+theorem Inv.handAlias {s : State} (h : Inv san s) (t r sid : Nat) {x : ScopeS} (hx : scopeOf s sid = some x)
+    (hi : x.ident = san r) (hh : holdsR (pcOf s t) = false) (hp : pendingOf (pcOf s t) = []) :
+    Pres san s (handOut (addAlias s r sid) t r sid) := by
+  refine Inv.thread (s0 := { addAlias s r sid with handedOut := (t, sid) :: (addAlias s r sid).handedOut }) h t (.obtDone r sid)
+    (addAlias_pcs ..) (ScopeLe.refl' _ _ (addAlias_scopes ..)) ?_ ?_ ?_ (addAlias_nextToken ..) ?_
+  · intro sid' hs
+    simp only [pcScope, Option.some.injEq] at hs; subst hs
+    exact ⟨x, by simpa [scopeOf] using hx, fun hc => by simp [pcClosed] at hc⟩
+  · intro t'
+    show t' ∈ (addAlias s r sid).readers ↔ _
+    rw [addAlias_readers]
+    by_cases he : t' = t
+    · subst he; simp only [if_true, holdsR]
+      rw [h.readersOk t', hh]
+    · simp [he]
+  · show SInv san (addAlias s r sid).scopes (addAlias s r sid).reg ((t, sid) :: (addAlias s r sid).handedOut)
+      (addAlias s r sid).dropped
+    rw [addAlias_handedOut, addAlias_dropped]
+    exact (h.static.addAlias hx hi).hand (by simpa using scopeOf_lt hx)
+  · intro n; rw [hp]
+    show idc n (addAlias s r sid).delivered + idc n (cells (addAlias s r sid).scopes)
+      + idc n (addAlias s r sid).dropped + idc n (pendingOf (.obtDone r sid)) = _
+    simp [pendingOf]
+
+theorem scopeOf_createScope_new (s : State) (i : Nat) :
+    scopeOf (createScope s i) s.scopes.length = some { ident := i, closed := false, cleared := false, cell := [] } := by
+  show (s.scopes ++ _)[s.scopes.length]? = _
+  simp
+
+/-- family: creation (sanitized key absent, or after the D4c report-and-drop prefix) -/
+theorem Inv.fresh {s : State} (h : Inv san s) (t r : Nat)
     (hh : holdsR (pcOf s t) = false) (hp : pendingOf (pcOf s t) = [])
-    (hno : ∀ (sid : Nat) (x : ScopeS), s.scopes[sid]? = some x → x.ident = i → x.closed = true) :
-    Pres s (freshS s t i) := by
-  refine Inv.thread (s0 := { s with
-      scopes := s.scopes ++ [{ ident := i, closed := false, cleared := false, cell := [] }],
-      reg := (i, s.scopes.length) :: s.reg.filter (·.1 != i),
-      handedOut := (t, s.scopes.length) :: s.handedOut })
-    h t (.obtDone i s.scopes.length) rfl ?_ ?_ ?_ (h.static.fresh t i hno) rfl ?_
+    (hno : ∀ (sid : Nat) (x : ScopeS), s.scopes[sid]? = some x → x.ident = san r → x.closed = true) :
+    Pres san s (freshS s t r (san r)) := by
+  have hst : SInv san (createScope s (san r)).scopes (createScope s (san r)).reg s.handedOut s.dropped :=
+    h.static.create (san r) (h.sanIdem r) hno
+  refine Inv.thread (s0 := { addAlias (createScope s (san r)) r s.scopes.length with
+      handedOut := (t, s.scopes.length) :: (addAlias (createScope s (san r)) r s.scopes.length).handedOut })
+    h t (.obtDone r s.scopes.length) (addAlias_pcs ..) ?_ ?_ ?_ ?_ (addAlias_nextToken ..) ?_
   · intro sid x hx
     refine ⟨x, ?_, rfl, fun hc => ⟨hc, id⟩⟩
+    show (addAlias (createScope s (san r)) r s.scopes.length).scopes[sid]? = some x
+    rw [addAlias_scopes]
     show (s.scopes ++ _)[sid]? = some x
     rw [List.getElem?_append_left (scopeOf_lt hx)]; exact hx
   · intro sid hs
     simp only [pcScope, Option.some.injEq] at hs; subst hs
-    refine ⟨{ ident := i, closed := false, cleared := false, cell := [] }, ?_, fun hc => by simp [pcClosed] at hc⟩
-    show (s.scopes ++ _)[s.scopes.length]? = _
-    simp
+    refine ⟨{ ident := san r, closed := false, cleared := false, cell := [] }, ?_, fun hc => by simp [pcClosed] at hc⟩
+    show (addAlias (createScope s (san r)) r s.scopes.length).scopes[s.scopes.length]? = _
+    rw [addAlias_scopes]
+    exact scopeOf_createScope_new s (san r)
   · intro t'
+    show t' ∈ (addAlias (createScope s (san r)) r s.scopes.length).readers ↔ _
+    rw [addAlias_readers]
+    show t' ∈ s.readers ↔ _
     by_cases he : t' = t
     · subst he; simp only [if_true, holdsR]; rw [h.readersOk t', hh]
     · simp [he]
+  · show SInv san (addAlias (createScope s (san r)) r s.scopes.length).scopes
+      (addAlias (createScope s (san r)) r s.scopes.length).reg
+      ((t, s.scopes.length) :: (addAlias (createScope s (san r)) r s.scopes.length).handedOut)
+      (addAlias (createScope s (san r)) r s.scopes.length).dropped
+    rw [addAlias_handedOut, addAlias_dropped]
+    refine (hst.addAlias (scopeOf_createScope_new s (san r)) rfl).hand ?_
+    rw [addAlias_scopes]
+    show s.scopes.length < (s.scopes ++ _).length
+    simp
   · intro n
     rw [hp]
-    show idc n s.delivered + idc n (cells (s.scopes ++ _)) + idc n s.dropped + idc n (pendingOf (.obtDone i s.scopes.length)) = _
+    show idc n (addAlias (createScope s (san r)) r s.scopes.length).delivered
+      + idc n (cells (addAlias (createScope s (san r)) r s.scopes.length).scopes)
+      + idc n (addAlias (createScope s (san r)) r s.scopes.length).dropped
+      + idc n (pendingOf (.obtDone r s.scopes.length)) = _
+    rw [addAlias_delivered, addAlias_scopes, addAlias_dropped]
+    show idc n s.delivered + idc n (cells (s.scopes ++ _)) + idc n s.dropped + _ = _
     rw [cells_append]; simp [pendingOf]
 
+/-- the D4c prefix, spelled out: report the closed scope still registered under the sanitized key `i`, unregister
+it under `i` and under the raw key `r`, clear it -/
+theorem d4cS_eq {s : State} {r i sid : Nat} {x : ScopeS} (hx : scopeOf s sid = some x) :
+    d4cS s r i sid x =
+      { s with scopes := s.scopes.set sid { x with cleared := true, cell := [] },
+               reg := (s.reg.filter fun (k', v) => !(k' == i && v == sid)).filter fun (k', v) => !(k' == r && v == sid),
+               delivered := x.cell ++ s.delivered } := by
+  have hlt := scopeOf_lt hx
+  simp [d4cS, clearScope, scopeOf, deleteIfSame, setScope, hlt]
 
-/-- the D4c prefix: report the closed scope still registered under `i`, unregister it, clear it -/
-def d4cS (s : State) (i sid : Nat) (x : ScopeS) : State :=
-  { s with scopes := s.scopes.set sid { x with cleared := true, cell := [] },
-           reg := s.reg.filter fun (k', v) => !(k' == i && v == sid),
-           delivered := x.cell ++ s.delivered }
-
-theorem step_obtWantLock_blocked {s : State} {t c i : Nat} (hpc : pcOf s t = .obtWantLock i)
-    (hr : s.readers ≠ []) : step s (.step t c) = none := by
+theorem step_obtWantLock_blocked {s : State} {t c r : Nat} (hpc : pcOf s t = .obtWantLock r)
+    (hr : s.readers ≠ []) : step san s (.step t c) = none := by
   have : (!s.readers.isEmpty) = true := by cases hh : s.readers <;> simp_all
   simp only [step, hpc, this, if_true]
 
-theorem step_obtWantLock_none {s : State} {t c i : Nat} (hpc : pcOf s t = .obtWantLock i)
-    (hr : s.readers = []) (hl : lookup s i = none) : step s (.step t c) = some (freshS s t i) := by
+theorem step_obtWantLock_none {s : State} {t c r : Nat} (hpc : pcOf s t = .obtWantLock r)
+    (hr : s.readers = []) (hl : lookup s (san r) = none) :
+    step san s (.step t c) = some (freshS s t r (san r)) := by
   have he : (!s.readers.isEmpty) = false := by simp [hr]
-  simp only [step, hpc, he, hl, Bool.false_eq_true, if_false]; rfl
+  simp only [step, hpc, he, hl, Bool.false_eq_true, if_false]
 
-theorem step_obtWantLock_some {s : State} {t c i sid : Nat} {x : ScopeS} (hpc : pcOf s t = .obtWantLock i)
-    (hr : s.readers = []) (hl : lookup s i = some sid) (hx : scopeOf s sid = some x) :
-    step s (.step t c) =
-      if !x.closed then some { setPc s t (.obtDone i sid) with handedOut := (t, sid) :: s.handedOut }
-      else if visiting s sid then none else some (freshS (d4cS s i sid x) t i) := by
+theorem step_obtWantLock_some {s : State} {t c r sid : Nat} {x : ScopeS} (hpc : pcOf s t = .obtWantLock r)
+    (hr : s.readers = []) (hl : lookup s (san r) = some sid) (hx : scopeOf s sid = some x) :
+    step san s (.step t c) =
+      if !x.closed then some (handOut (addAlias s r sid) t r sid)
+      else if visiting s sid then none else some (freshS (d4cS s r (san r) sid x) t r (san r)) := by
   have he : (!s.readers.isEmpty) = false := by simp [hr]
   simp only [step, hpc, he, hl, hx, Bool.false_eq_true, if_false]
-  have : clearScope (deleteIfSame { setScope s sid { x with cell := [] } with delivered := x.cell ++ s.delivered } i sid) sid
-      = d4cS s i sid x := by
-    have hlt := scopeOf_lt hx
-    simp [clearScope, scopeOf, deleteIfSame, setScope, d4cS, hlt]
-  split
-  · rfl
-  · split
-    · rfl
-    · rw [← this]; rfl
 
-theorem step_obtWantLock_noscope {s : State} {t c i sid : Nat} (hpc : pcOf s t = .obtWantLock i)
-    (hl : lookup s i = some sid) (hx : scopeOf s sid = none) : step s (.step t c) = none := by
+theorem step_obtWantLock_noscope {s : State} {t c r sid : Nat} (hpc : pcOf s t = .obtWantLock r)
+    (hl : lookup s (san r) = some sid) (hx : scopeOf s sid = none) : step san s (.step t c) = none := by
   simp only [step, hpc, hl, hx]; split <;> rfl
 
-theorem Inv.d4cPre {s : State} (h : Inv s) (i sid : Nat) {x : ScopeS} (hx : scopeOf s sid = some x)
-    (hc : x.closed = true) : Pres s (d4cS s i sid x) := by
+theorem Inv.d4cPre {s : State} (h : Inv san s) (r i sid : Nat) {x : ScopeS} (hx : scopeOf s sid = some x)
+    (hc : x.closed = true) : Pres san s (d4cS s r i sid x) := by
   have hx' : s.scopes[sid]? = some x := hx
   have hlt := scopeOf_lt hx
+  rw [d4cS_eq hx]
   refine h.noPc rfl rfl ?_ ?_ [] ?_ (Or.inl ⟨rfl, rfl⟩)
   · have := scopeLe_setScope (y := { x with cleared := true, cell := [] }) hx rfl fun hc => ⟨hc, fun _ => NoPre_nil⟩
     intro sid' x' h'
     exact this sid' x' h'
   · have h1 := h.static.set (y := { x with cleared := true, cell := [] }) hx' rfl id
       (by intro _ hm; cases hm) (fun _ => ⟨hc, rfl⟩)
-    exact h1.delete (k := i) (sid := sid) (x := { x with cleared := true, cell := [] })
+    have h2 := h1.delete (k := i) (sid := sid) (x := { x with cleared := true, cell := [] })
+      (by simp [hlt]) hc
+    exact h2.delete (k := r) (sid := sid) (x := { x with cleared := true, cell := [] })
       (by simp [hlt]) hc
   · intro n
     have := idc_cells_set n s.scopes sid x { x with cleared := true, cell := [] } hx'
@@ -861,17 +982,22 @@ theorem Inv.d4cPre {s : State} (h : Inv s) (i sid : Nat) {x : ScopeS} (hx : scop
     simp only [idc_append, idc_nil] at this ⊢
     omega
 
+@[simp] theorem pcOf_d4cS (s : State) (r i sid : Nat) (x : ScopeS) (t' : Nat) :
+    pcOf (d4cS s r i sid x) t' = pcOf s t' := by
+  unfold d4cS clearScope; split <;> rfl
+
 /-- family: the D4c branch (report, drop and re-create inside one write-locked step) -/
-theorem Inv.d4c {s : State} (h : Inv s) (t i sid : Nat) {x : ScopeS}
+theorem Inv.d4c {s : State} (h : Inv san s) (t r sid : Nat) {x : ScopeS}
     (hh : holdsR (pcOf s t) = false) (hp : pendingOf (pcOf s t) = [])
-    (hl : lookup s i = some sid) (hx : scopeOf s sid = some x) (hc : x.closed = true) :
-    Pres s (freshS (d4cS s i sid x) t i) := by
+    (hl : lookup s (san r) = some sid) (hx : scopeOf s sid = some x) (hc : x.closed = true) :
+    Pres san s (freshS (d4cS s r (san r) sid x) t r (san r)) := by
   have hlt := scopeOf_lt hx
-  have hno := h.static.no_live i (Or.inr ⟨sid, x, hl, hx, hc⟩)
-  have hpre := h.d4cPre i sid hx hc
-  have hfr : Pres (d4cS s i sid x) (freshS (d4cS s i sid x) t i) := by
-    refine hpre.1.fresh t i hh hp ?_
+  have hno := h.static.no_live (san r) (Or.inr ⟨sid, x, hl, hx, hc⟩)
+  have hpre := h.d4cPre r (san r) sid hx hc
+  have hfr : Pres san (d4cS s r (san r) sid x) (freshS (d4cS s r (san r) sid x) t r (san r)) := by
+    refine hpre.1.fresh t r (by rw [pcOf_d4cS]; exact hh) (by rw [pcOf_d4cS]; exact hp) ?_
     intro sid' x' hx' hi
+    rw [d4cS_eq hx] at hx'
     have hx'' : (s.scopes.set sid { x with cleared := true, cell := [] })[sid']? = some x' := hx'
     rw [List.getElem?_set] at hx''
     by_cases he : sid = sid'
@@ -892,7 +1018,7 @@ theorem PcInv.of_same {s : State} {p p' : Pc} (h : PcInv s p) (hs : pcScope p' =
 
 /-! ## preservation, event by event -/
 
-theorem inv_record {s s' : State} {sid : Nat} (h : Inv s) (hs : step s (.record sid) = some s') : Pres s s' := by
+theorem inv_record {s s' : State} {sid : Nat} (h : Inv san s) (hs : step san s (.record sid) = some s') : Pres san s s' := by
   simp only [step] at hs
   split at hs
   · cases hs
@@ -935,7 +1061,7 @@ theorem inv_record {s s' : State} {sid : Nat} (h : Inv s) (hs : step s (.record 
         simp only [idc_cons, idc_nil] at this ⊢
         omega
 
-theorem inv_close {s s' : State} {sid : Nat} (h : Inv s) (hs : step s (.close sid) = some s') : Pres s s' := by
+theorem inv_close {s s' : State} {sid : Nat} (h : Inv san s) (hs : step san s (.close sid) = some s') : Pres san s s' := by
   simp only [step] at hs
   split at hs
   · cases hs
@@ -955,7 +1081,7 @@ theorem inv_close {s s' : State} {sid : Nat} (h : Inv s) (hs : step s (.close si
 theorem pcOf_idle_of {s : State} {t : Nat} (h : ¬ (pcOf s t != .idle) = true) : pcOf s t = .idle := by
   simpa using h
 
-theorem inv_obtain {s s' : State} {t i : Nat} (h : Inv s) (hs : step s (.obtain t i) = some s') : Pres s s' := by
+theorem inv_obtain {s s' : State} {t i : Nat} (h : Inv san s) (hs : step san s (.obtain t i) = some s') : Pres san s s' := by
   simp only [step] at hs
   split at hs
   · cases hs
@@ -964,7 +1090,7 @@ theorem inv_obtain {s s' : State} {t i : Nat} (h : Inv s) (hs : step s (.obtain 
     cases hs
     exact h.move t _ (by rw [hpc]; rfl) (by rw [hpc]; rfl) rfl (PcInv.of_none rfl)
 
-theorem inv_passBegin {s s' : State} {t : Nat} (h : Inv s) (hs : step s (.passBegin t) = some s') : Pres s s' := by
+theorem inv_passBegin {s s' : State} {t : Nat} (h : Inv san s) (hs : step san s (.passBegin t) = some s') : Pres san s s' := by
   simp only [step] at hs
   split at hs
   · cases hs
@@ -973,7 +1099,7 @@ theorem inv_passBegin {s s' : State} {t : Nat} (h : Inv s) (hs : step s (.passBe
     cases hs
     exact h.acquire t _ rfl (by rw [hpc]; rfl) rfl (PcInv.of_none rfl)
 
-theorem inv_passEndHint {s s' : State} {t : Nat} (h : Inv s) (hs : step s (.passEndHint t) = some s') : Pres s s' := by
+theorem inv_passEndHint {s s' : State} {t : Nat} (h : Inv san s) (hs : step san s (.passEndHint t) = some s') : Pres san s s' := by
   simp only [step] at hs
   split at hs
   · next v hpc =>
@@ -985,8 +1111,8 @@ theorem inv_passEndHint {s s' : State} {t : Nat} (h : Inv s) (hs : step s (.pass
 section threadSteps
 variable {s s' : State} {t c : Nat}
 
-theorem inv_passIter {v : List Nat} (h : Inv s) (hpc : pcOf s t = .passIter v)
-    (hs : step s (.step t c) = some s') : Pres s s' := by
+theorem inv_passIter {v : List Nat} (h : Inv san s) (hpc : pcOf s t = .passIter v)
+    (hs : step san s (.step t c) = some s') : Pres san s s' := by
   simp only [step, hpc] at hs
   split at hs
   · cases hs
@@ -1002,8 +1128,8 @@ theorem inv_passIter {v : List Nat} (h : Inv s) (hpc : pcOf s t = .passIter v)
         simp only [pcScope, Option.some.injEq] at hs'; subst hs'
         exact ⟨x, hx, fun hc => ⟨by simpa [pcClosed] using hc, fun hsw => by simp [pcSwapped] at hsw⟩⟩
 
-theorem inv_passSwap {v : List Nat} {k sid : Nat} {cl : Bool} (h : Inv s) (hpc : pcOf s t = .passSwap v k sid cl)
-    (hs : step s (.step t c) = some s') : Pres s s' := by
+theorem inv_passSwap {v : List Nat} {k sid : Nat} {cl : Bool} (h : Inv san s) (hpc : pcOf s t = .passSwap v k sid cl)
+    (hs : step san s (.step t c) = some s') : Pres san s s' := by
   simp only [step, hpc] at hs
   split at hs
   · cases hs
@@ -1017,15 +1143,15 @@ theorem inv_passSwap {v : List Nat} {k sid : Nat} {cl : Bool} (h : Inv s) (hpc :
     · split <;> rfl
     · rw [hpc]; split <;> rfl
 
-theorem inv_passDeliver {v : List Nat} {k sid : Nat} {cl : Bool} {pd : List Token} (h : Inv s)
-    (hpc : pcOf s t = .passDeliver v k sid cl pd) (hs : step s (.step t c) = some s') : Pres s s' := by
+theorem inv_passDeliver {v : List Nat} {k sid : Nat} {cl : Bool} {pd : List Token} (h : Inv san s)
+    (hpc : pcOf s t = .passDeliver v k sid cl pd) (hs : step san s (.step t c) = some s') : Pres san s s' := by
   simp only [step, hpc] at hs
   cases hs
   refine h.deliver t _ pd (by rw [hpc]; rfl) (by rw [hpc]; rfl) rfl ?_
   exact (hpc ▸ h.pcInv t : PcInv s (.passDeliver v k sid cl pd)).of_same rfl id (fun _ _ => rfl)
 
-theorem inv_passAfter {v : List Nat} {k sid : Nat} {cl : Bool} (h : Inv s)
-    (hpc : pcOf s t = .passAfter v k sid cl) (hs : step s (.step t c) = some s') : Pres s s' := by
+theorem inv_passAfter {v : List Nat} {k sid : Nat} {cl : Bool} (h : Inv san s)
+    (hpc : pcOf s t = .passAfter v k sid cl) (hs : step san s (.step t c) = some s') : Pres san s s' := by
   simp only [step, hpc] at hs
   split at hs
   · next hcl =>
@@ -1040,8 +1166,8 @@ theorem isEmpty_of_not_not {l : List Nat} (h : ¬ (!l.isEmpty) = true) : l = [] 
   | nil => rfl
   | cons a l => simp at h
 
-theorem inv_passUnlocked {v : List Nat} {k sid : Nat} (h : Inv s)
-    (hpc : pcOf s t = .passUnlocked v k sid) (hs : step s (.step t c) = some s') : Pres s s' := by
+theorem inv_passUnlocked {v : List Nat} {k sid : Nat} (h : Inv san s)
+    (hpc : pcOf s t = .passUnlocked v k sid) (hs : step san s (.step t c) = some s') : Pres san s s' := by
   simp only [step, hpc] at hs
   split at hs
   · cases hs
@@ -1049,15 +1175,15 @@ theorem inv_passUnlocked {v : List Nat} {k sid : Nat} (h : Inv s)
     refine h.delete t k sid _ (by rw [hpc]; rfl) rfl (by rw [hpc]; rfl) rfl (by rw [hpc]; rfl) (by rw [hpc]; rfl) ?_
     exact (hpc ▸ h.pcInv t : PcInv s (.passUnlocked v k sid)).of_same rfl id (fun _ _ => rfl)
 
-theorem inv_passRelock {v : List Nat} {k sid : Nat} (h : Inv s)
-    (hpc : pcOf s t = .passRelock v k sid) (hs : step s (.step t c) = some s') : Pres s s' := by
+theorem inv_passRelock {v : List Nat} {k sid : Nat} (h : Inv san s)
+    (hpc : pcOf s t = .passRelock v k sid) (hs : step san s (.step t c) = some s') : Pres san s s' := by
   simp only [step, hpc] at hs
   cases hs
   refine h.acquire t _ rfl (by rw [hpc]; rfl) rfl ?_
   exact (hpc ▸ h.pcInv t : PcInv s (.passRelock v k sid)).of_same rfl id (fun _ _ => rfl)
 
-theorem inv_passClear {v : List Nat} {k sid : Nat} (h : Inv s)
-    (hpc : pcOf s t = .passClear v k sid) (hs : step s (.step t c) = some s') : Pres s s' := by
+theorem inv_passClear {v : List Nat} {k sid : Nat} (h : Inv san s)
+    (hpc : pcOf s t = .passClear v k sid) (hs : step san s (.step t c) = some s') : Pres san s s' := by
   simp only [step, hpc] at hs
   split at hs
   · cases hs
@@ -1065,8 +1191,8 @@ theorem inv_passClear {v : List Nat} {k sid : Nat} (h : Inv s)
     exact h.clear t sid _ (by rw [hpc]; rfl) (by rw [hpc]; rfl) rfl (by rw [hpc]; rfl) (by rw [hpc]; rfl)
       (by rw [hpc]; rfl) rfl
 
-theorem inv_obtProbe {i : Nat} (h : Inv s)
-    (hpc : pcOf s t = .obtProbe i) (hs : step s (.step t c) = some s') : Pres s s' := by
+theorem inv_obtProbe {i : Nat} (h : Inv san s)
+    (hpc : pcOf s t = .obtProbe i) (hs : step san s (.step t c) = some s') : Pres san s s' := by
   simp only [step, hpc] at hs
   split at hs
   · cases hs
@@ -1085,8 +1211,8 @@ theorem inv_obtProbe {i : Nat} (h : Inv s)
         simp only [pcScope, Option.some.injEq] at hs'; subst hs'
         exact ⟨x, hx, fun _ => ⟨by simpa using hcl, fun hsw => by simp [pcSwapped] at hsw⟩⟩
 
-theorem inv_obtSwap {i sid : Nat} (h : Inv s) (hpc : pcOf s t = .obtSwap i sid)
-    (hs : step s (.step t c) = some s') : Pres s s' := by
+theorem inv_obtSwap {i sid : Nat} (h : Inv san s) (hpc : pcOf s t = .obtSwap i sid)
+    (hs : step san s (.step t c) = some s') : Pres san s s' := by
   simp only [step, hpc] at hs
   split at hs
   · cases hs
@@ -1100,22 +1226,22 @@ theorem inv_obtSwap {i sid : Nat} (h : Inv s) (hpc : pcOf s t = .obtSwap i sid)
     · split <;> rfl
     · rw [hpc]; split <;> rfl
 
-theorem inv_obtDeliver {i sid : Nat} {pd : List Token} (h : Inv s)
-    (hpc : pcOf s t = .obtDeliver i sid pd) (hs : step s (.step t c) = some s') : Pres s s' := by
+theorem inv_obtDeliver {i sid : Nat} {pd : List Token} (h : Inv san s)
+    (hpc : pcOf s t = .obtDeliver i sid pd) (hs : step san s (.step t c) = some s') : Pres san s s' := by
   simp only [step, hpc] at hs
   cases hs
   refine h.deliver t _ pd (by rw [hpc]; rfl) (by rw [hpc]; rfl) rfl ?_
   exact (hpc ▸ h.pcInv t : PcInv s (.obtDeliver i sid pd)).of_same rfl id (fun _ _ => rfl)
 
-theorem inv_obtAfter {i sid : Nat} (h : Inv s)
-    (hpc : pcOf s t = .obtAfter i sid) (hs : step s (.step t c) = some s') : Pres s s' := by
+theorem inv_obtAfter {i sid : Nat} (h : Inv san s)
+    (hpc : pcOf s t = .obtAfter i sid) (hs : step san s (.step t c) = some s') : Pres san s s' := by
   simp only [step, hpc] at hs
   cases hs
   refine h.release t _ rfl (by rw [hpc]; rfl) rfl ?_
   exact (hpc ▸ h.pcInv t : PcInv s (.obtAfter i sid)).of_same rfl id (fun _ _ => rfl)
 
-theorem inv_obtUnlocked {i sid : Nat} (h : Inv s)
-    (hpc : pcOf s t = .obtUnlocked i sid) (hs : step s (.step t c) = some s') : Pres s s' := by
+theorem inv_obtUnlocked {i sid : Nat} (h : Inv san s)
+    (hpc : pcOf s t = .obtUnlocked i sid) (hs : step san s (.step t c) = some s') : Pres san s s' := by
   simp only [step, hpc] at hs
   split at hs
   · cases hs
@@ -1123,15 +1249,15 @@ theorem inv_obtUnlocked {i sid : Nat} (h : Inv s)
     refine h.delete t i sid _ (by rw [hpc]; rfl) rfl (by rw [hpc]; rfl) rfl (by rw [hpc]; rfl) (by rw [hpc]; rfl) ?_
     exact (hpc ▸ h.pcInv t : PcInv s (.obtUnlocked i sid)).of_same rfl id (fun _ _ => rfl)
 
-theorem inv_obtRelock {i sid : Nat} (h : Inv s)
-    (hpc : pcOf s t = .obtRelock i sid) (hs : step s (.step t c) = some s') : Pres s s' := by
+theorem inv_obtRelock {i sid : Nat} (h : Inv san s)
+    (hpc : pcOf s t = .obtRelock i sid) (hs : step san s (.step t c) = some s') : Pres san s s' := by
   simp only [step, hpc] at hs
   cases hs
   refine h.acquire t _ rfl (by rw [hpc]; rfl) rfl ?_
   exact (hpc ▸ h.pcInv t : PcInv s (.obtRelock i sid)).of_same rfl id (fun _ _ => rfl)
 
-theorem inv_obtClear {i sid : Nat} (h : Inv s)
-    (hpc : pcOf s t = .obtClear i sid) (hs : step s (.step t c) = some s') : Pres s s' := by
+theorem inv_obtClear {i sid : Nat} (h : Inv san s)
+    (hpc : pcOf s t = .obtClear i sid) (hs : step san s (.step t c) = some s') : Pres san s s' := by
   simp only [step, hpc] at hs
   split at hs
   · cases hs
@@ -1139,26 +1265,49 @@ theorem inv_obtClear {i sid : Nat} (h : Inv s)
     exact h.clear t sid _ (by rw [hpc]; rfl) (by rw [hpc]; rfl) rfl (by rw [hpc]; rfl) (by rw [hpc]; rfl)
       (by rw [hpc]; rfl) rfl
 
-theorem inv_obtRelease {i sid : Nat} (h : Inv s)
-    (hpc : pcOf s t = .obtRelease i sid) (hs : step s (.step t c) = some s') : Pres s s' := by
+theorem inv_obtRelease {i sid : Nat} (h : Inv san s)
+    (hpc : pcOf s t = .obtRelease i sid) (hs : step san s (.step t c) = some s') : Pres san s s' := by
   simp only [step, hpc] at hs
   cases hs
   exact h.release t _ rfl (by rw [hpc]; rfl) rfl (PcInv.of_none rfl)
 
-theorem inv_obtDone {i sid : Nat} (h : Inv s)
-    (hpc : pcOf s t = .obtDone i sid) (hs : step s (.step t c) = some s') : Pres s s' := by
+theorem inv_obtDone {i sid : Nat} (h : Inv san s)
+    (hpc : pcOf s t = .obtDone i sid) (hs : step san s (.step t c) = some s') : Pres san s s' := by
   simp only [step, hpc] at hs
   cases hs
   exact h.move t _ (by rw [hpc]; rfl) (by rw [hpc]; rfl) rfl (PcInv.of_none rfl)
 
-theorem inv_obtWantLock {i : Nat} (h : Inv s)
-    (hpc : pcOf s t = .obtWantLock i) (hs : step s (.step t c) = some s') : Pres s s' := by
+theorem inv_obtAfter2 {i sid : Nat} (h : Inv san s)
+    (hpc : pcOf s t = .obtAfter2 i sid) (hs : step san s (.step t c) = some s') : Pres san s s' := by
+  simp only [step, hpc] at hs
+  cases hs
+  refine h.release t _ rfl (by rw [hpc]; rfl) rfl ?_
+  exact (hpc ▸ h.pcInv t : PcInv s (.obtAfter2 i sid)).of_same rfl id (fun _ _ => rfl)
+
+theorem inv_obtUnlocked2 {i sid : Nat} (h : Inv san s)
+    (hpc : pcOf s t = .obtUnlocked2 i sid) (hs : step san s (.step t c) = some s') : Pres san s s' := by
+  simp only [step, hpc] at hs
+  split at hs
+  · cases hs
+  · cases hs
+    refine h.delete t (san i) sid _ (by rw [hpc]; rfl) rfl (by rw [hpc]; rfl) rfl (by rw [hpc]; rfl) (by rw [hpc]; rfl) ?_
+    exact (hpc ▸ h.pcInv t : PcInv s (.obtUnlocked2 i sid)).of_same rfl id (fun _ _ => rfl)
+
+theorem inv_obtRelock2 {i sid : Nat} (h : Inv san s)
+    (hpc : pcOf s t = .obtRelock2 i sid) (hs : step san s (.step t c) = some s') : Pres san s s' := by
+  simp only [step, hpc] at hs
+  cases hs
+  refine h.acquire t _ rfl (by rw [hpc]; rfl) rfl ?_
+  exact (hpc ▸ h.pcInv t : PcInv s (.obtRelock2 i sid)).of_same rfl id (fun _ _ => rfl)
+
+theorem inv_obtWantLock {r : Nat} (h : Inv san s)
+    (hpc : pcOf s t = .obtWantLock r) (hs : step san s (.step t c) = some s') : Pres san s s' := by
   by_cases hr : s.readers = []
-  · cases hl : lookup s i with
+  · cases hl : lookup s (san r) with
     | none =>
       rw [step_obtWantLock_none hpc hr hl] at hs
       cases hs
-      exact h.fresh t i (by rw [hpc]; rfl) (by rw [hpc]; rfl) (h.static.no_live i (Or.inl hl))
+      exact h.fresh t r (by rw [hpc]; rfl) (by rw [hpc]; rfl) (h.static.no_live (san r) (Or.inl hl))
     | some sid =>
       cases hx : scopeOf s sid with
       | none => rw [step_obtWantLock_noscope hpc hl hx] at hs; cases hs
@@ -1166,18 +1315,21 @@ theorem inv_obtWantLock {i : Nat} (h : Inv s)
         rw [step_obtWantLock_some hpc hr hl hx] at hs
         split at hs
         · cases hs
-          exact h.hand t i sid hx (by rw [hpc]; rfl) (by rw [hpc]; rfl)
+          obtain ⟨x', hx', hi⟩ := h.static.regIdent (san r) sid (mem_of_lookup hl)
+          have hx0 : s.scopes[sid]? = some x := hx
+          rw [hx0] at hx'; cases hx'
+          exact h.handAlias t r sid hx (by rw [hi, h.sanIdem]) (by rw [hpc]; rfl) (by rw [hpc]; rfl)
         · next hcl =>
           split at hs
           · cases hs
           · cases hs
-            exact h.d4c t i sid (by rw [hpc]; rfl) (by rw [hpc]; rfl) hl hx (by simpa using hcl)
+            exact h.d4c t r sid (by rw [hpc]; rfl) (by rw [hpc]; rfl) hl hx (by simpa using hcl)
   · rw [step_obtWantLock_blocked hpc hr] at hs; cases hs
 
 end threadSteps
 
 /-- every atomic action of every thread preserves the invariant -/
-theorem pres_step {s s' : State} {e : Ev} (h : Inv s) (hs : step s e = some s') : Pres s s' := by
+theorem pres_step {s s' : State} {e : Ev} (h : Inv san s) (hs : step san s e = some s') : Pres san s s' := by
   cases e with
   | passBegin t => exact inv_passBegin h hs
   | passEndHint t => exact inv_passEndHint h hs
@@ -1200,14 +1352,17 @@ theorem pres_step {s s' : State} {e : Ev} (h : Inv s) (hs : step s e = some s') 
     | obtAfter i sid => exact inv_obtAfter h hpc hs
     | obtUnlocked i sid => exact inv_obtUnlocked h hpc hs
     | obtRelock i sid => exact inv_obtRelock h hpc hs
+    | obtAfter2 i sid => exact inv_obtAfter2 h hpc hs
+    | obtUnlocked2 i sid => exact inv_obtUnlocked2 h hpc hs
+    | obtRelock2 i sid => exact inv_obtRelock2 h hpc hs
     | obtClear i sid => exact inv_obtClear h hpc hs
     | obtRelease i sid => exact inv_obtRelease h hpc hs
     | obtWantLock i => exact inv_obtWantLock h hpc hs
     | obtDone i sid => exact inv_obtDone h hpc hs
 
-theorem inv_step {s s' : State} {e : Ev} (h : Inv s) (hs : step s e = some s') : Inv s' := (pres_step h hs).1
+theorem inv_step {s s' : State} {e : Ev} (h : Inv san s) (hs : step san s e = some s') : Inv san s' := (pres_step h hs).1
 
-theorem inv_run {s s' : State} {es : List Ev} (h : Inv s) (hr : run s es = some s') : Inv s' := by
+theorem inv_run {s s' : State} {es : List Ev} (h : Inv san s) (hr : run san s es = some s') : Inv san s' := by
   induction es generalizing s with
   | nil => simp only [run, Option.some.injEq] at hr; subst hr; exact h
   | cons e es ih =>
@@ -1216,18 +1371,18 @@ theorem inv_run {s s' : State} {es : List Ev} (h : Inv s) (hr : run s es = some 
     · cases hr
     · next s1 h1 => exact ih (inv_step h h1) hr
 
-theorem inv_init : Inv init := by
-  refine ⟨by simp [init], ?_, ?_, ?_, ?_⟩
+theorem inv_init (hsan : ∀ k, san (san k) = san k) : Inv san init := by
+  refine ⟨hsan, by simp [init], ?_, ?_, ?_, ?_⟩
   · intro t; simp [init, pcOf, holdsR]
   · intro t; exact PcInv.of_none rfl
-  · refine ⟨?_, ?_, ?_, ?_, ?_, ?_⟩ <;> simp [init, NoPre]
+  · refine ⟨?_, ?_, ?_, ?_, ?_, ?_, ?_⟩ <;> simp [init, NoPre]
   · intro n; simp [allTokens, init, allCells, allPending]
 
-theorem inv_initRoot : Inv initRoot := by
-  refine ⟨by simp [initRoot, init], ?_, ?_, ?_, ?_⟩
+theorem inv_initRoot (hsan : ∀ k, san (san k) = san k) : Inv san (initRoot san) := by
+  refine ⟨hsan, by simp [initRoot, init], ?_, ?_, ?_, ?_⟩
   · intro t; simp [initRoot, init, pcOf, holdsR]
   · intro t; exact PcInv.of_none rfl
-  · refine ⟨?_, ?_, ?_, ?_, ?_, ?_⟩
+  · refine ⟨?_, ?_, ?_, ?_, ?_, ?_, ?_⟩
     · intro sid x hx tok hm
       cases sid with
       | zero => simp [initRoot, init] at hx; subst hx; cases hm
@@ -1243,7 +1398,8 @@ theorem inv_initRoot : Inv initRoot := by
     · intro k v hm
       simp [initRoot, init] at hm
       obtain ⟨rfl, rfl⟩ := hm
-      exact ⟨_, rfl, rfl⟩
+      exact ⟨_, rfl, (hsan 0).symm⟩
+    · simp [initRoot, init]
     · intro t sid hm; simp [initRoot, init] at hm
     · intro tok hm; simp [initRoot, init] at hm
   · intro n; simp [allTokens, initRoot, init, allCells, allPending]
@@ -1251,7 +1407,7 @@ theorem inv_initRoot : Inv initRoot := by
 
 /-! ## consequences used by the property theorems -/
 
-theorem pres_run {s s' : State} {es : List Ev} (h : Inv s) (hr : run s es = some s') : Pres s s' := by
+theorem pres_run {s s' : State} {es : List Ev} (h : Inv san s) (hr : run san s es = some s') : Pres san s s' := by
   induction es generalizing s with
   | nil => simp only [run, Option.some.injEq] at hr; subst hr; exact ⟨h, fun _ => Nat.le_refl _, ScopeLe.refl' _ _ rfl⟩
   | cons e es ih =>
@@ -1264,7 +1420,7 @@ theorem pres_run {s s' : State} {es : List Ev} (h : Inv s) (hr : run s es = some
       exact ⟨p2.1, p1.2.1.trans p2.2.1, p1.2.2.trans p2.2.2⟩
 
 /-- a token, once issued, is somewhere (delivered, in a cell, pending or dropped) for ever -/
-theorem mem_allTokens_run {s s' : State} {es : List Ev} (h : Inv s) (hr : run s es = some s')
+theorem mem_allTokens_run {s s' : State} {es : List Ev} (h : Inv san s) (hr : run san s es = some s')
     {tok : Token} (hm : tok ∈ allTokens s) : tok ∈ allTokens s' := by
   have := (pres_run h hr).2.1 (fun x => x == tok)
   have h1 : 0 < idc (fun x => x == tok) (allTokens s) :=
@@ -1284,7 +1440,7 @@ theorem count_range (n N : Nat) : (List.range N).count n = if n < N then 1 else 
   simp [List.mem_range]
 
 /-- the ids of all tokens are exactly `0 … nextToken-1`, each once -/
-theorem Inv.ids_perm {s : State} (h : Inv s) : ((allTokens s).map (·.id)).Perm (List.range s.nextToken) := by
+theorem Inv.ids_perm {s : State} (h : Inv san s) : ((allTokens s).map (·.id)).Perm (List.range s.nextToken) := by
   rw [List.perm_iff_count]
   intro n
   rw [← idc_byId_eq_count, h.tokens n, count_range]
@@ -1342,18 +1498,24 @@ theorem visiting_iff {s : State} (hnd : (s.pcs.map (·.1)).Nodup) (sid : Nat) :
     pcOf { s with handedOut := h } t' = pcOf s t' := rfl
 @[simp] theorem pcOf_delivered (s : State) (h : List Token) (t' : Nat) :
     pcOf { s with delivered := h } t' = pcOf s t' := rfl
-@[simp] theorem pcOf_d4cS (s : State) (i sid : Nat) (x : ScopeS) (t' : Nat) : pcOf (d4cS s i sid x) t' = pcOf s t' := rfl
-theorem pcOf_freshS (s : State) (t i t' : Nat) :
-    pcOf (freshS s t i) t' = if t' = t then .obtDone i s.scopes.length else pcOf s t' := by
-  show pcOf (setPc _ t _) t' = _
-  rw [pcOf_setPc]; rfl
+@[simp] theorem pcOf_addAlias (s : State) (r sid t' : Nat) : pcOf (addAlias s r sid) t' = pcOf s t' := by
+  simp [pcOf]
+@[simp] theorem pcOf_createScope (s : State) (i t' : Nat) : pcOf (createScope s i) t' = pcOf s t' := rfl
+theorem pcOf_handOut (s : State) (t r sid t' : Nat) :
+    pcOf (handOut s t r sid) t' = if t' = t then .obtDone r sid else pcOf s t' := by
+  show pcOf (setPc s t _) t' = _
+  rw [pcOf_setPc]
+theorem pcOf_freshS (s : State) (t r i t' : Nat) :
+    pcOf (freshS s t r i) t' = if t' = t then .obtDone r s.scopes.length else pcOf s t' := by
+  unfold freshS
+  rw [pcOf_handOut, pcOf_addAlias, pcOf_createScope]
 
 /-- the thread performing an event, if any -/
 def actor : Ev → Option Nat
   | .passBegin t | .step t _ | .passEndHint t | .obtain t _ => some t
   | _ => none
 
-theorem step_pcOf_ne {s s' : State} {e : Ev} {t : Nat} (hs : step s e = some s') (hne : actor e ≠ some t) :
+theorem step_pcOf_ne {s s' : State} {e : Ev} {t : Nat} (hs : step san s e = some s') (hne : actor e ≠ some t) :
     pcOf s' t = pcOf s t := by
   cases e with
   | record sid =>
@@ -1384,7 +1546,7 @@ theorem step_pcOf_ne {s s' : State} {e : Ev} {t : Nat} (hs : step s e = some s')
     cases hpc : pcOf s t' with
     | obtWantLock i =>
       by_cases hr : s.readers = []
-      · cases hl : lookup s i with
+      · cases hl : lookup s (san i) with
         | none =>
           rw [step_obtWantLock_none hpc hr hl] at hs; cases hs
           simp [pcOf_freshS, hne']
@@ -1394,7 +1556,7 @@ theorem step_pcOf_ne {s s' : State} {e : Ev} {t : Nat} (hs : step s e = some s')
           | some x =>
             rw [step_obtWantLock_some hpc hr hl hx] at hs
             split at hs
-            · cases hs; exact pcOf_setPc_ne s t' t _ hne'
+            · cases hs; simp [pcOf_handOut, hne']
             · split at hs
               · cases hs
               · cases hs; simp [pcOf_freshS, hne']
@@ -1405,7 +1567,7 @@ theorem step_pcOf_ne {s s' : State} {e : Ev} {t : Nat} (hs : step s e = some s')
       all_goals first | cases hs | skip
       all_goals first | exact pcOf_setPc_ne s t' t _ hne' | simp [pcOf_setPc, hne']
 
-theorem step_to_obtDone {s s' : State} {e : Ev} {t i sid : Nat} (hs : step s e = some s')
+theorem step_to_obtDone {s s' : State} {e : Ev} {t i sid : Nat} (hs : step san s e = some s')
     (hd : pcOf s' t = .obtDone i sid) :
     pcOf s t = .obtDone i sid ∨ ∃ c, e = .step t c ∧ (pcOf s t = .obtProbe i ∨ pcOf s t = .obtWantLock i) := by
   by_cases ha : actor e = some t
@@ -1434,7 +1596,7 @@ theorem step_to_obtDone {s s' : State} {e : Ev} {t i sid : Nat} (hs : step s e =
       cases hpc : pcOf s t with
       | obtWantLock i' =>
         by_cases hr : s.readers = []
-        · cases hl : lookup s i' with
+        · cases hl : lookup s (san i') with
           | none =>
             rw [step_obtWantLock_none hpc hr hl] at hs; cases hs
             simp [pcOf_freshS] at hd
@@ -1446,9 +1608,8 @@ theorem step_to_obtDone {s s' : State} {e : Ev} {t i sid : Nat} (hs : step s e =
               rw [step_obtWantLock_some hpc hr hl hx] at hs
               split at hs
               · cases hs
-                have : pcOf (setPc s t (.obtDone i' sid')) t = .obtDone i sid := hd
-                simp at this
-                right; rw [this.1]
+                simp [pcOf_handOut] at hd
+                right; rw [hd.1]
               · split at hs
                 · cases hs
                 · cases hs
@@ -1460,9 +1621,8 @@ theorem step_to_obtDone {s s' : State} {e : Ev} {t i sid : Nat} (hs : step s e =
         repeat' split at hs
         all_goals first | cases hs | skip
         · simp at hd
-        · have : pcOf (setPc s t (.obtDone i' _)) t = .obtDone i sid := hd
-          simp at this
-          left; rw [this.1]
+        · simp [pcOf_handOut] at hd
+          left; rw [hd.1]
         · simp at hd
       | _ =>
         simp only [step, hpc] at hs
@@ -1471,30 +1631,27 @@ theorem step_to_obtDone {s s' : State} {e : Ev} {t i sid : Nat} (hs : step s e =
         all_goals simp at hd
   · left; rw [← step_pcOf_ne hs ha]; exact hd
 
-theorem scopeOf_freshS_new (s : State) (t i : Nat) :
-    scopeOf (freshS s t i) s.scopes.length = some { ident := i, closed := false, cleared := false, cell := [] } := by
-  show (s.scopes ++ _)[s.scopes.length]? = _
-  simp
+theorem scopeOf_freshS_new (s : State) (t r i : Nat) :
+    scopeOf (freshS s t r i) s.scopes.length = some { ident := i, closed := false, cleared := false, cell := [] } := by
+  show scopeOf (addAlias (createScope s i) r s.scopes.length) s.scopes.length = _
+  rw [scopeOf_addAlias]; exact scopeOf_createScope_new s i
 
-theorem lookup_freshS (s : State) (t i : Nat) : lookup (freshS s t i) i = some s.scopes.length := by
+theorem lookup_freshS (s : State) (t r i : Nat) : lookup (freshS s t r i) i = some s.scopes.length := by
+  show lookup (addAlias (createScope s i) r s.scopes.length) i = _
+  apply lookup_addAlias
   show List.lookup i ((i, s.scopes.length) :: _) = _
   simp [List.lookup]
 
-/-- what `obtain` returns: a live scope of the requested identity, registered under it -/
-theorem obtain_returns {s s' : State} {t c i sid : Nat} (h : Inv s) (hs : step s (.step t c) = some s')
-    (hpc : pcOf s t = .obtProbe i ∨ pcOf s t = .obtWantLock i) (hd : pcOf s' t = .obtDone i sid) :
-    ∃ x, scopeOf s' sid = some x ∧ x.closed = false ∧ x.ident = i ∧ lookup s' i = some sid
+theorem handedOut_freshS (s : State) (t r i : Nat) :
+    (freshS s t r i).handedOut = (t, s.scopes.length) :: s.handedOut := by
+  show (t, s.scopes.length) :: (addAlias (createScope s i) r s.scopes.length).handedOut = _
+  rw [addAlias_handedOut]; rfl
+
+/-- what `obtain` (raw key `r`) returns: a live scope of identity `san r`, registered under `san r` -/
+theorem obtain_returns {s s' : State} {t c r sid : Nat} (h : Inv san s) (hs : step san s (.step t c) = some s')
+    (hpc : pcOf s t = .obtProbe r ∨ pcOf s t = .obtWantLock r) (hd : pcOf s' t = .obtDone r sid) :
+    ∃ x, scopeOf s' sid = some x ∧ x.closed = false ∧ x.ident = san r ∧ lookup s' (san r) = some sid
       ∧ s'.handedOut = (t, sid) :: s.handedOut := by
-  have live : ∀ sid' x, lookup s i = some sid' → scopeOf s sid' = some x → (!x.closed) = true →
-      pcOf (setPc s t (.obtDone i sid')) t = .obtDone i sid →
-      ∃ x, scopeOf s sid = some x ∧ x.closed = false ∧ x.ident = i ∧ lookup s i = some sid
-        ∧ (t, sid') :: s.handedOut = (t, sid) :: s.handedOut := by
-    intro sid' x hl hx hc hd
-    simp at hd; subst hd
-    obtain ⟨x', hx', hi⟩ := h.static.regIdent i sid' (mem_of_lookup hl)
-    have hx0 : s.scopes[sid']? = some x := hx
-    rw [hx0] at hx'; cases hx'
-    exact ⟨x, hx, by simpa using hc, hi, hl, rfl⟩
   rcases hpc with hpc | hpc
   · simp only [step, hpc] at hs
     split at hs
@@ -1504,47 +1661,99 @@ theorem obtain_returns {s s' : State} {t c i sid : Nat} (h : Inv s) (hs : step s
       · cases hs
       · next x hx =>
         split at hs
-        · next hc => cases hs; exact live sid' x hl hx hc hd
+        · next hc =>
+          cases hs
+          simp [pcOf_handOut] at hd; subst hd
+          obtain ⟨x', hx', hi⟩ := h.static.regIdent r sid' (mem_of_lookup hl)
+          have hx0 : s.scopes[sid']? = some x := hx
+          rw [hx0] at hx'; cases hx'
+          have hcl : x.closed = false := by simpa using hc
+          refine ⟨x, hx, hcl, hi, ?_, rfl⟩
+          have := h.static.liveReg sid' x hx0 hcl
+          rw [hi] at this; exact this
         · cases hs; simp at hd
   · by_cases hr : s.readers = []
-    · cases hl : lookup s i with
+    · cases hl : lookup s (san r) with
       | none =>
         rw [step_obtWantLock_none hpc hr hl] at hs; cases hs
         simp [pcOf_freshS] at hd; subst hd
-        exact ⟨_, scopeOf_freshS_new s t i, rfl, rfl, lookup_freshS s t i, rfl⟩
+        exact ⟨_, scopeOf_freshS_new s t r (san r), rfl, rfl, lookup_freshS s t r (san r), handedOut_freshS ..⟩
       | some sid' =>
         cases hx : scopeOf s sid' with
         | none => rw [step_obtWantLock_noscope hpc hl hx] at hs; cases hs
         | some x =>
           rw [step_obtWantLock_some hpc hr hl hx] at hs
           split at hs
-          · next hc => cases hs; exact live sid' x hl hx hc hd
+          · next hc =>
+            cases hs
+            simp [pcOf_handOut] at hd; subst hd
+            obtain ⟨x', hx', hi⟩ := h.static.regIdent (san r) sid' (mem_of_lookup hl)
+            have hx0 : s.scopes[sid']? = some x := hx
+            rw [hx0] at hx'; cases hx'
+            refine ⟨x, ?_, by simpa using hc, by rw [hi, h.sanIdem], ?_, ?_⟩
+            · show scopeOf (addAlias s r sid') sid' = some x
+              rw [scopeOf_addAlias]; exact hx
+            · show lookup (addAlias s r sid') (san r) = some sid'
+              exact lookup_addAlias hl
+            · show (t, sid') :: (addAlias s r sid').handedOut = _
+              rw [addAlias_handedOut]
           · split at hs
             · cases hs
             · cases hs
+              have hlen : (d4cS s r (san r) sid' x).scopes.length = s.scopes.length := by
+                rw [d4cS_eq hx]; simp
+              have hho : (d4cS s r (san r) sid' x).handedOut = s.handedOut := by
+                rw [d4cS_eq hx]
               simp [pcOf_freshS] at hd; subst hd
-              have hlen : (d4cS s i sid' x).scopes.length = s.scopes.length := by simp [d4cS]
-              refine ⟨_, scopeOf_freshS_new _ t i, rfl, rfl, lookup_freshS _ t i, ?_⟩
-              show (t, (d4cS s i sid' x).scopes.length) :: s.handedOut = _
-              rfl
+              refine ⟨_, scopeOf_freshS_new _ t r (san r), rfl, rfl, lookup_freshS _ t r (san r), ?_⟩
+              rw [handedOut_freshS, hho]
     · rw [step_obtWantLock_blocked hpc hr] at hs; cases hs
 
 
-theorem run_append {a b : State} {xs ys : List Ev} (h : run a xs = some b) : run a (xs ++ ys) = run b ys := by
+/-- a thread that has returned from `obtain r` holds a scope of identity `san r` (a second, small invariant on top
+of `Inv`, by `step_to_obtDone` / `obtain_returns` and the persistence of identities) -/
+def DoneOk (san : Nat → Nat) (s : State) : Prop :=
+  ∀ t r sid, pcOf s t = .obtDone r sid → ∃ x, scopeOf s sid = some x ∧ x.ident = san r
+
+theorem doneOk_step {s s' : State} {e : Ev} (h : Inv san s) (hd : DoneOk san s) (hs : step san s e = some s') :
+    DoneOk san s' := by
+  intro t r sid hpc
+  rcases step_to_obtDone hs hpc with hh | ⟨c, rfl, hpc0⟩
+  · obtain ⟨x, hx, hi⟩ := hd t r sid hh
+    obtain ⟨x', hx', hi', _⟩ := (pres_step h hs).2.2 sid x hx
+    exact ⟨x', hx', hi'.trans hi⟩
+  · obtain ⟨x, hx, _, hi, _⟩ := obtain_returns h hs hpc0 hpc
+    exact ⟨x, hx, hi⟩
+
+theorem doneOk_run {s s' : State} {es : List Ev} (h : Inv san s) (hd : DoneOk san s) (hr : run san s es = some s') :
+    DoneOk san s' := by
+  induction es generalizing s with
+  | nil => simp only [run, Option.some.injEq] at hr; subst hr; exact hd
+  | cons e es ih =>
+    simp only [run] at hr
+    split at hr
+    · cases hr
+    · next s1 h1 => exact ih (inv_step h h1) (doneOk_step h hd h1) hr
+
+theorem doneOk_of_no_pcs {s : State} (h : s.pcs = []) : DoneOk san s := by
+  intro t r sid hpc
+  simp [pcOf, h] at hpc
+
+theorem run_append {a b : State} {xs ys : List Ev} (h : run san a xs = some b) : run san a (xs ++ ys) = run san b ys := by
   induction xs generalizing a with
   | nil => simp only [run, Option.some.injEq] at h; subst h; rfl
   | cons x xs ih =>
     simp only [List.cons_append, run] at h ⊢
-    cases h1 : step a x with
+    cases h1 : step san a x with
     | none => simp [h1] at h
     | some s1 => simp only [h1] at h ⊢; exact ih h
 
-theorem run_single {a b : State} {e : Ev} (h : step a e = some b) : run a [e] = some b := by
+theorem run_single {a b : State} {e : Ev} (h : step san a e = some b) : run san a [e] = some b := by
   simp [run, h]
 
 /-- the final report, from the invariant: in a state where `sid` is cleared and nobody holds a pending
 delta of it, every accounted `pre` token of `sid` is in `delivered` -/
-theorem Inv.final_report {s : State} (h : Inv s) {sid : Nat} {x : ScopeS} (hx : scopeOf s sid = some x)
+theorem Inv.final_report {s : State} (h : Inv san s) {sid : Nat} {x : ScopeS} (hx : scopeOf s sid = some x)
     (hcl : x.cleared = true) (hp : ∀ tok ∈ allPending s, tok.scope ≠ sid)
     {tok : Token} (hm : tok ∈ allTokens s) (hsc : tok.scope = sid) (hpre : tok.pre = true) :
     tok ∈ s.delivered := by
@@ -1567,8 +1776,8 @@ theorem visits_not_idle {p : Pc} {sid : Nat} (h : visits p sid = true) : p ≠ .
   intro e; subst e; simp [visits] at h
 
 /-- a thread inside a visit always has its next step enabled -/
-theorem Inv.visitor_enabled {s : State} (h : Inv s) {t sid : Nat} (hv : visits (pcOf s t) sid = true) :
-    (step s (.step t 0)).isSome = true := by
+theorem Inv.visitor_enabled {s : State} (h : Inv san s) {t sid : Nat} (hv : visits (pcOf s t) sid = true) :
+    (step san s (.step t 0)).isSome = true := by
   cases hpc : pcOf s t with
   | passSwap v k sid' c =>
     obtain ⟨x, hx, _⟩ := h.pcInv t sid' (by rw [hpc]; rfl)
@@ -1581,8 +1790,8 @@ theorem Inv.visitor_enabled {s : State} (h : Inv s) {t sid : Nat} (hv : visits (
   | _ => rw [hpc] at hv; simp [visits] at hv
 
 /-- **progress**: if some thread is not idle, some non-idle thread has an enabled step -/
-theorem Inv.progress {s : State} (h : Inv s) (hb : ∃ t, pcOf s t ≠ .idle) :
-    ∃ t, pcOf s t ≠ .idle ∧ ((∃ c, (step s (.step t c)).isSome = true) ∨ (step s (.passEndHint t)).isSome = true) := by
+theorem Inv.progress {s : State} (h : Inv san s) (hb : ∃ t, pcOf s t ≠ .idle) :
+    ∃ t, pcOf s t ≠ .idle ∧ ((∃ c, (step san s (.step t c)).isSome = true) ∨ (step san s (.passEndHint t)).isSome = true) := by
   by_cases hv : ∃ t sid, visits (pcOf s t) sid = true
   · obtain ⟨t, sid, hv⟩ := hv
     exact ⟨t, visits_not_idle hv, Or.inl ⟨0, h.visitor_enabled hv⟩⟩
@@ -1615,12 +1824,14 @@ theorem Inv.progress {s : State} (h : Inv s) (hb : ∃ t, pcOf s t ≠ .idle) :
           split <;> rfl
       | obtUnlocked i sid => simp [step, hpc, hrd]
       | obtRelock i sid => simp [step, hpc]
+      | obtUnlocked2 i sid => simp [step, hpc, hrd]
+      | obtRelock2 i sid => simp [step, hpc]
       | obtDone i sid => simp [step, hpc]
       | obtWantLock i =>
-        cases hl : lookup s i with
+        cases hl : lookup s (san i) with
         | none => rw [step_obtWantLock_none hpc hrd hl]; rfl
         | some sid =>
-          obtain ⟨x, hx, _⟩ := h.static.regIdent i sid (mem_of_lookup hl)
+          obtain ⟨x, hx, _⟩ := h.static.regIdent (san i) sid (mem_of_lookup hl)
           have hx' : scopeOf s sid = some x := hx
           rw [step_obtWantLock_some hpc hrd hl hx']
           split
@@ -1640,25 +1851,26 @@ theorem Inv.progress {s : State} (h : Inv s) (hb : ∃ t, pcOf s t ≠ .idle) :
       | passAfter v k sid c => left; refine ⟨0, ?_⟩; simp only [step, hpc]; split <;> rfl
       | passClear v k sid => left; exact ⟨0, by simp [step, hpc, hnv sid]⟩
       | obtAfter i sid => left; exact ⟨0, by simp [step, hpc]⟩
+      | obtAfter2 i sid => left; exact ⟨0, by simp [step, hpc]⟩
       | obtClear i sid => left; exact ⟨0, by simp [step, hpc, hnv sid]⟩
       | obtRelease i sid => left; exact ⟨0, by simp [step, hpc]⟩
       | _ => rw [hpc] at hr; simp [holdsR] at hr
 
 /-- the thread's next step takes the shard's write lock -/
 def wantsWrite : Pc → Bool
-  | .passUnlocked .. | .obtUnlocked .. | .obtWantLock _ => true
+  | .passUnlocked .. | .obtUnlocked .. | .obtUnlocked2 .. | .obtWantLock _ => true
   | _ => false
 
 /-- the only reasons for a thread's step to be disabled in a state satisfying the invariant: the thread is
 idle; it is a pass at the top of its loop and the chosen key is not an unvisited registered key; it needs the
 write lock while readers hold the read lock; or it must clear (take the metric write lock of) a scope that
 some thread is visiting -/
-theorem Inv.blocked_only_on_locks {s : State} (h : Inv s) {t c : Nat} (hne : pcOf s t ≠ .idle)
-    (hni : ∀ v, pcOf s t ≠ .passIter v) (hb : step s (.step t c) = none) :
+theorem Inv.blocked_only_on_locks {s : State} (h : Inv san s) {t c : Nat} (hne : pcOf s t ≠ .idle)
+    (hni : ∀ v, pcOf s t ≠ .passIter v) (hb : step san s (.step t c) = none) :
     (wantsWrite (pcOf s t) = true ∧ s.readers ≠ [])
     ∨ ∃ sid, visiting s sid = true ∧
         ((∃ v k, pcOf s t = .passClear v k sid) ∨ (∃ i, pcOf s t = .obtClear i sid)
-          ∨ (∃ i, pcOf s t = .obtWantLock i ∧ lookup s i = some sid)) := by
+          ∨ (∃ i, pcOf s t = .obtWantLock i ∧ lookup s (san i) = some sid)) := by
   cases hpc : pcOf s t with
   | idle => exact absurd hpc hne
   | passIter v => exact absurd hpc (hni v)
@@ -1693,6 +1905,11 @@ theorem Inv.blocked_only_on_locks {s : State} (h : Inv s) {t c : Nat} (hne : pcO
     left; refine ⟨rfl, ?_⟩
     intro hr; simp [step, hpc, hr] at hb
   | obtRelock i sid => simp [step, hpc] at hb
+  | obtAfter2 i sid => simp [step, hpc] at hb
+  | obtUnlocked2 i sid =>
+    left; refine ⟨rfl, ?_⟩
+    intro hr; simp [step, hpc, hr] at hb
+  | obtRelock2 i sid => simp [step, hpc] at hb
   | obtClear i sid =>
     right; refine ⟨sid, ?_, Or.inr (Or.inl ⟨i, rfl⟩)⟩
     cases hv : visiting s sid with
@@ -1702,10 +1919,10 @@ theorem Inv.blocked_only_on_locks {s : State} (h : Inv s) {t c : Nat} (hne : pcO
   | obtDone i sid => simp [step, hpc] at hb
   | obtWantLock i =>
     by_cases hr : s.readers = []
-    · cases hl : lookup s i with
+    · cases hl : lookup s (san i) with
       | none => rw [step_obtWantLock_none hpc hr hl] at hb; cases hb
       | some sid =>
-        obtain ⟨x, hx, _⟩ := h.static.regIdent i sid (mem_of_lookup hl)
+        obtain ⟨x, hx, _⟩ := h.static.regIdent (san i) sid (mem_of_lookup hl)
         have hx' : scopeOf s sid = some x := hx
         rw [step_obtWantLock_some hpc hr hl hx'] at hb
         split at hb
